@@ -399,6 +399,10 @@ structure ARow where
   durDiv : Int
   pitch : Int
   tsBeatType : Int
+  /-- `ts_beats`, `ks_fifths`, `ks_mode` (round 5; read by Model/NoteArrayTs.lean only) -/
+  tsBeats : Int := 4
+  ksFifths : Int := 0
+  ksMode : Int := 1
   deriving Repr
 
 /-- Python `int(x)`: towards zero -/
@@ -429,7 +433,7 @@ def divsFromBeats (rows : List (Rat × Rat)) : Nat × List (Int × Int) :=
 def leLex (a b : Rat × Int × Rat) : Bool :=
   decide (a.1 < b.1) || (decide (a.1 = b.1) && (decide (a.2.1 < b.2.1) || (decide (a.2.1 = b.2.1) && decide (a.2.2 ≤ b.2.2))))
 
-inductive InvErr | empty | fields | divs | negative
+inductive InvErr | empty | fields | divs | negative | key | measures
   deriving Repr, DecidableEq
 
 /-- the negative-duration / negative-onset tests -/
